@@ -63,6 +63,8 @@ const C16_GENERICS: &[(&str, &str)] = &[
     ("<T, U>", ""),
     ("<'a, T>", ""),
     ("<T, const N: usize>", ""),
+    ("<T, const N: usize = 4>", ""),
+    ("<const N: usize, T>", ""),
     ("<T: Clone = i32>", ""),
     ("<T>", " where T: Clone"),
     ("<'a, 'b: 'a, T: 'a + Clone, U = String, const N: usize>", " where U: Default"),
